@@ -58,6 +58,8 @@ type srvConn struct {
 	gaugeMaxS int64
 	gaugeMaxR int64
 	gaugeMaxH int64
+	lt0, fw0  int64           // loop iterations / frames handed to the stream loop when the current op began
+	loose     bool            // real time has passed (sleep): timers add loop iterations the counters cannot predict
 	holding   map[uint32]bool // handlers that have built part of their response and are still running
 	ownerViol []string        // something reached into a response its handler still owns
 }
@@ -296,6 +298,9 @@ func (s *srvConn) handler(ctx *fasthttp.RequestCtx) {
 	applyResp(&ctx.Response, sp)
 }
 
+// reqTimeoutMs, when > 0, is the ReadTimeout (per-request timeout) of the next connections (`new ... rt=<ms>`).
+var reqTimeoutMs int
+
 func newSrvConn(mcs, mhl, mrb int) *srvConn {
 	http2.VerifResetCounters()
 	s := &srvConn{mc: newMemConn(), served: make(chan struct{}), parked: map[uint32]chan respSpec{}, holding: map[uint32]bool{}}
@@ -304,6 +309,9 @@ func newSrvConn(mcs, mhl, mrb int) *srvConn {
 	fs := &fasthttp.Server{Handler: s.handler, Logger: capLogger{s}}
 	if mrb > 0 {
 		fs.MaxRequestBodySize = mrb
+	}
+	if reqTimeoutMs > 0 {
+		fs.ReadTimeout = time.Duration(reqTimeoutMs) * time.Millisecond
 	}
 	srv := http2.VerifNewServer(fs, http2.ServerConfig{PingInterval: -1, MaxConcurrentStreams: mcs, MaxHeaderListSize: mhl})
 	go func() {
@@ -458,7 +466,20 @@ func (s *srvConn) quiesce() string {
 		// ServeConn can return a moment before the stream loop has drained what was forwarded to it: the
 		// step is over only when the loop has gone too (it may still start a handler until then)
 		ok := served && loopGone && s.enteredN() == http2.VerifDispatchedN.Load()
-		if !ok && !loopGone {
+		if !ok && !loopGone && s.loose {
+			// the loop has come round at least once for everything handed to it since the op began, and nothing moves
+			a, b, c := http2.VerifLoopTopN.Load(), http2.VerifQueuedN.Load(), http2.VerifForwardedN.Load()
+			ok = s.mc.in.idle() && a-s.lt0 >= c+s.dones-s.fw0 && s.enteredN() == http2.VerifDispatchedN.Load() && len(rest) == 0
+			if ok {
+				time.Sleep(3 * time.Millisecond)
+				ok = a == http2.VerifLoopTopN.Load() && b == http2.VerifQueuedN.Load() && c == http2.VerifForwardedN.Load() && s.mc.in.idle()
+				if ok {
+					s.outBuf = append(s.outBuf, s.mc.out.take()...)
+					frames, rest = parseFrames(s.outBuf)
+					ok = len(rest) == 0
+				}
+			}
+		} else if !ok && !loopGone {
 			ok = s.mc.in.idle() &&
 				http2.VerifLoopTopN.Load() == 1+http2.VerifForwardedN.Load()+s.dones &&
 				s.enteredN() == http2.VerifDispatchedN.Load() &&
@@ -625,6 +646,7 @@ func (r *runner) runSrv(f []string) string {
 		if old := r.srv[id]; old != nil {
 			old.shutdown()
 		}
+		reqTimeoutMs = argInt(f, "rt", 0)
 		s := newSrvConn(argInt(f, "mcs", 100), argInt(f, "mhl", 0), argInt(f, "mrb", 0))
 		r.srv[id] = s
 		return s.quiesce()
@@ -633,6 +655,8 @@ func (r *runner) runSrv(f []string) string {
 	if s == nil {
 		return "bad-op"
 	}
+	// where the loop counters stand when the op begins (used once timers may add iterations of their own)
+	s.lt0, s.fw0 = http2.VerifLoopTopN.Load(), http2.VerifForwardedN.Load()+s.dones
 	switch op {
 	case "frame", "bytes":
 		if len(f) != 4 {
@@ -703,6 +727,11 @@ func (r *runner) runSrv(f []string) string {
 			return "bad-op"
 		}
 		return s.raceGoAway(b)
+	case "sleep": // real time passes (the request timeout of a connection made with rt=<ms> fires); what the server did meanwhile
+		ms, _ := strconv.Atoi(f[3])
+		time.Sleep(time.Duration(ms) * time.Millisecond)
+		s.loose = true
+		return "mon slept " + s.settle()
 	case "stall": // the peer stops reading from here on; only burst, doneall and stallcut may follow
 		s.mc.out.setStall(true)
 		return "mon stalled"
